@@ -702,7 +702,39 @@ def g_round(g: G) -> dict[str, Any]:
     return case("round", "round", g.form2(), left, args)
 
 
+# filter -> (kind of left value, plain arguments, positions of the parameters documented as <string>)
+STRARG: dict[str, tuple[str, list[Any], list[int]]] = {
+    "append": ("str", ["x"], [0]), "prepend": ("str", ["x"], [0]),
+    "remove": ("str", ["a"], [0]), "remove_first": ("str", ["a"], [0]), "remove_last": ("str", ["a"], [0]),
+    "replace": ("str", ["a", "b"], [0, 1]), "replace_first": ("str", ["a", "b"], [0, 1]),
+    "replace_last": ("str", ["a", "b"], [0, 1]), "split": ("str", [" "], [0]), "join": ("list", [", "], [0]),
+    "truncate": ("str", [3, "~"], [1]), "truncatewords": ("str", [1, "~"], [1]),
+}
+
+
+def g_strarg(g: G) -> dict[str, Any]:
+    """A <string> parameter receives a value that is not a string: it counts as the text that value renders as."""
+    flt = g.one(sorted(STRARG))
+    kind, plain, where = STRARG[flt]
+    left: Any = g.lst(lambda h: h.t_small(), 4) if kind == "list" else (g.t_any() + " a1 true 2.5 b")
+    args = list(plain)
+    pos = g.one(where)
+    r = g.r.random()
+    if r < 0.35:
+        args[pos] = g.one([None, True, False])
+    elif r < 0.6:
+        args[pos] = g.int(-3, 30)
+    elif r < 0.8:
+        args[pos] = g.dec_float()
+    else:
+        args[pos] = g.lst(lambda h: h.int(0, 9) if h.p(0.5) else h.t_small(), 3)
+    c = case("strarg", flt, g.form2(), left, args)
+    c["pos"] = pos
+    return c
+
+
 GENERATORS = [
+    g_strarg,
     g_sort, g_sort, g_reverse, g_uniq, g_compact, g_select, g_select, g_agree, g_agree, g_map, g_sum, g_first_last,
     g_slice, g_concat, g_split_join, g_split_join, g_url, g_b64, g_escape, g_case_strip, g_case_strip, g_affix,
     g_replace, g_replace, g_truncate, g_truncate, g_int_arith, g_int_arith, g_dec_arith, g_dec_arith, g_float_mod,
@@ -750,6 +782,8 @@ def defect_shapes(c: dict[str, Any]) -> set[str]:  # noqa: PLR0912
     """Which known-defect input shapes this case has (pure function of the case)."""
     out: set[str] = set()
     law, flt, form, left, args = c["law"], c["filter"], c["form"], c["left"], c["args"]
+    if law == "strarg":
+        return out  # a relation between two calls of the filter, not a definition of its result
     if flt == "truncate":
         num = args[0] if args else 50
         end = args[1] if len(args) > 1 else "..."
@@ -1196,6 +1230,19 @@ class C19(Prop):
         self._expect(res, c, "escape_once . escape = escape", run.apply(form, "escape_once", esc[1], []), esc[1])
 
     # ------------------------------------------------------------------ string definitions
+
+    def _law_strarg(self, c: dict[str, Any], res: Result, run: Run) -> None:
+        """f(x, .., v, ..) == f(x, .., text(v), ..) for a parameter the reference documents as <string>."""
+        flt, form, left, args, pos = c["filter"], c["form"], c["left"], c["args"], c["pos"]
+        as_text = list(args)
+        as_text[pos] = M.liquid_str(args[pos])
+        got = run.apply(form, flt, left, args)
+        want = run.apply(form, flt, left, as_text)
+        res.nontrivial = bool(as_text[pos])
+        if got[0] == "exc" or want[0] == "exc":
+            self._bad(res, c, "strarg", f"escaped exception: {got if got[0] == 'exc' else want}")
+        elif got[0] != want[0] or (got[0] == "ok" and not same(got[1], want[1])):
+            self._bad(res, c, "strarg", f"with the value {args[pos]!r}: {got}; with its text {as_text[pos]!r}: {want}")
 
     def _law_str_def(self, c: dict[str, Any], res: Result, run: Run) -> None:  # noqa: PLR0912, PLR0915
         flt, form, s, args = c["filter"], c["form"], c["left"], c["args"]
